@@ -359,7 +359,7 @@ def sync_mechanism(run, tier):
     orphans) against the Level-1 statements on every edge, and exports shortest-path behaviours; the harness replays
     them on every class and compares, after every step, results, resource, in-memory images and identities."""
     quick = tier == "quick"
-    base = {"Objs": '{"o1", "o2"}', "MaxId": "2", "MaxSteps": "4", "SampleK": "100" if quick else "60", "Wide": "FALSE" if quick else "TRUE",
+    base = {"Objs": '{"o1", "o2"}', "MaxId": "2", "MaxSteps": "4", "SampleK": "100" if quick else "500", "Wide": "FALSE" if quick else "TRUE",
             "Dev_NestedNoLoad": "FALSE", "Dev_NoneIsNoop": "FALSE", "Dev_PyEqKeepsOld": "FALSE"}
     for kind in ("d", "l"):
         consts = dict(base, Kind=f'"{kind}"')
@@ -374,10 +374,10 @@ def sync_mechanism(run, tier):
         hs = list(res.records("SYH"))
         if not quick:
             # beyond the exhaustive depth: random behaviours of 8 steps with the wide operation menu
-            c2 = dict(consts, MaxSteps="9", SampleK="12", Wide="TRUE")
+            c2 = dict(consts, MaxSteps="9", SampleK="40", Wide="TRUE")
             cfg2 = tlc.cfg_text(init="MCInit", next_="MCNext", constants=c2, constraints=["Bounded"],
                                 action_constraints=["ExportPath"], properties=SYNC_PROPS, invariants=["Mech_OnePlace"])
-            r3 = tlc.run("MC_Sync", cfg2, name=f"sync-sim-{kind}", seed=common.seed() + 7, simulate="num=4000", depth=9,
+            r3 = tlc.run("MC_Sync", cfg2, name=f"sync-sim-{kind}", seed=common.seed() + 7, simulate="num=300", depth=9,
                          timeout=1500)
             if r3.violated or r3.errors:
                 run.machinery_error(f"TLC MC_Sync simulation {kind}: {r3.violated} {r3.errors[:2]} {r3.tail(8)}")
